@@ -130,3 +130,21 @@ fn verif_c13_row_span_overflow() {
         Ok(Err(e)) => println!("NO-WITNESS D2: rejected: {e}"),
     }
 }
+
+// ---------------------------------------------------------------------------------------------
+// C11 replay. D7: shares_len() must equal the number of shares produced
+// ---------------------------------------------------------------------------------------------
+#[test]
+fn verif_c11_shares_len_with_signer() {
+    use crate::state::AccAddress;
+    let ns = Namespace::new_v0(&[1, 2, 3]).unwrap();
+    let signer = AccAddress::new(tendermint::account::Id::new([7u8; 20]));
+    let mut bad = Vec::new();
+    for len in 440usize..500 {
+        let blob = crate::Blob::new(ns, vec![0xAB; len], Some(signer.clone()), AppVersion::V3).unwrap();
+        let produced = blob.to_shares().unwrap().len();
+        if blob.shares_len() != produced { bad.push((len, blob.shares_len(), produced)); }
+    }
+    if bad.is_empty() { println!("NO-WITNESS D7: shares_len agrees with to_shares for signer blobs of 440..500 bytes"); }
+    else { println!("WITNESS C11/D7: blob with signer: (data len, shares_len(), to_shares().len()) = {:?} ... {} lengths in total", &bad[..bad.len().min(3)], bad.len()); }
+}
